@@ -23,10 +23,13 @@ EXTENDS Naturals, Sequences, FiniteSets, TLC
 \* Any > A > BC > {B, C} > D ;  Int unrelated ;  Null is accepted only by a nullable (Any) parameter.
 \* BC is a union type (a parameter declared with the tuple of classes (B, C), like the library's Number = (int, float)): it
 \* accepts what B or C accepts, so it is less specific than either and more specific than their common ancestors.
-Classes == {"A", "B", "C", "D", "Int", "BC"}
+\* E < B and V < {E, C} (a value class mixing two unrelated branches): with them "more specific" is not transitive across
+\* overloads - f1(B, D) > f2(C, B) > f3(E, A) while f1 and f3 are incomparable.
+Classes == {"A", "B", "C", "D", "Int", "BC", "E", "V"}
 Types   == Classes \cup {"Any", "Lazy"}
 
 Parents(c) == CASE c = "A" -> {"Any"} [] c = "B" -> {"BC"} [] c = "C" -> {"BC"} [] c = "BC" -> {"A"} [] c = "D" -> {"B", "C"}
+                [] c = "E" -> {"B"} [] c = "V" -> {"E", "C"}
                 [] c = "Int" -> {"Any"} [] c = "Any" -> {} [] c = "Lazy" -> {}        \* a lazy type is comparable with nothing
 RECURSIVE Ancestors(_)
 Ancestors(c) == Parents(c) \cup UNION {Ancestors(p) : p \in Parents(c)}
